@@ -362,5 +362,6 @@ def run(ctx, out, replay=None):
     for c in cases:
         if is_dag(c):
             for b in c["binds"]:
-                ops[b[0] + ("/aug" if len(b) > 3 and b[0] in ("add", "sub") else "")] = ops.get(b[0], 0) + 1
+                key = b[0] + ("/aug" if len(b) > 3 and b[0] in ("add", "sub") else "")
+                ops[key] = ops.get(key, 0) + 1
     out.extra["dag_bindings_by_operation"] = ops
